@@ -474,7 +474,7 @@ func checkAndOr(p *Prog, r *Report, ia *ssa.Function) {
 	filtersT := types.NewSlice(types.NewPointer(p.namedType("Filter")))
 	for _, op := range []string{"and", "or"} {
 		for _, script := range [][]bool{{true, true}, {false, false}, {true, false}, {false, true}} {
-			in := &interp{p: p, f: ia, maxPaths: 3000}
+			in := &interp{p: p, f: ia, maxPaths: 3000, inline: smallHelper}
 			in.callHook = func(st *istate, c *ssa.Call, args []*aval) *aval {
 				if c.Common().StaticCallee() == ia {
 					n := 0
@@ -545,7 +545,7 @@ func checkInHas(p *Prog, r *Report, ia, member *ssa.Function) {
 			resT, filT = listT, strT
 		}
 		var rec *helperCall
-		in := &interp{p: p, f: ia, maxPaths: 3000}
+		in := &interp{p: p, f: ia, maxPaths: 3000, inline: smallHelper}
 		in.callHook = func(st *istate, c *ssa.Call, args []*aval) *aval {
 			cc := c.Common()
 			if cc.IsInvoke() && cc.Method.Name() == "Get" {
